@@ -250,7 +250,8 @@ PROPS["C01"] = {
     "trusted_base": EXT + ["go1.26.8 testing/synctest", "the composition of the carriage, queue, codec and dispatch theorems into the end-to-end statement is by the argument in Props/C01.lean's header, "
                            "not one Lean term: the Go glue between the modelled pieces (socket.emit -> manager.packet -> eio.Send, onEIOPacket -> onPacket -> handler call) is exercised, not modelled"],
     "assumptions": ["equality of arguments is Go reflect.DeepEqual on the decoded handler parameters"],
-    "partial": ["values sent as `any` holding []byte and a binary value shared between two arguments are recorded findings of C09 (D33, D17)",
+    "partial": ["an event that arrives before the server application's connection handler has registered its handler is dropped (finding D40; provoked by 50 clients connecting at once, each emitting from OnConnect)",
+                "values sent as `any` holding []byte and a binary value shared between two arguments are recorded findings of C09 (D33, D17)",
                 "packets restored after session recovery are C08's (findings D17b, D18)"],
     "level_text": "Lean 4 theorems for the carriage and the reassembly, for every input: each frame put on a WebSocket decodes to itself; for every partition of the frame stream "
                   "into non-empty long-polling payloads each payload decodes to exactly the frames put into it (attachments as base64), and the concatenation is the stream "
